@@ -265,9 +265,10 @@ def run(tier, seed):
     v.assumptions = ASSUMPTIONS + ["seeds read from the source (X1): min -> %s, max -> %s" % (seeds["min"], seeds["max"])]
     regen_reports = {}
     def regen(log):
+        # core.regen_generated has just regenerated Simd_<isa>.lean and C16Spec_<isa>.lean; collect the reports (nothing is rewritten twice)
         from props import c16_xlate
-        regen_reports.update(xlate_simd.regenerate(xlate_simd.ISAS, core.REPO, log))
-        for isa, r in c16_xlate.regenerate(core.REPO, log).items():
+        regen_reports.update(xlate_simd.regenerate(xlate_simd.ISAS, core.REPO, None))
+        for isa, r in c16_xlate.regenerate(core.REPO, None).items():
             regen_reports["spec_" + isa] = r
     ok, info = core.proof_stage(v, PID, thorough=(tier == "thorough"), regen=regen)
     v.cov["proof"] = {k: info.get(k) for k in ("build_ok", "problems", "failed_modules", "errors", "leanchecker", "log")}
